@@ -100,8 +100,8 @@ let handle (case : string) (out : string) : unit =
                    if u = "1" then Hashtbl.replace online_at a t;
                    changes := (t, a, u = "1") :: !changes
                | _ -> raise (Bad ("E " ^ r)))
-          | 'X' -> xs := int_of_string body :: !xs
-          | 'U' -> faulted := true
+          | 'X' -> xs := int_of_string body :: !xs; count "fault:disturbances"
+          | 'U' -> faulted := true; count "fault:station-stopped-mid-transmission"
           | 'S' ->
               (match split_ws body with
                | [a; t; fl; ns; ps; las; st] ->
